@@ -4148,7 +4148,8 @@ impl M2Model {
                 } else {
                     (skin.submeshes.len() / submesh_size) as u32
                 };
-                let n_batches = (skin.batches.len() / 96) as u32;
+                // Texture units are read at 24 bytes each (see parse_embedded_skins)
+                let n_batches = (skin.batches.len() / 24) as u32;
 
                 // Extract bone_count_max from original ModelView (last 4 bytes)
                 let bone_count_max = if skin.model_view.len() >= 44 {
